@@ -121,6 +121,11 @@ class StoreState:
             ops.append({"op": "read", "path": rel, "phase": "recovery"})
         return ops
 
+    def shape(self):
+        """Abstract final state of the store: per path (format, representation, damage
+        class, number of writes capped at 3, has subregions, foreign)."""
+        return "|".join(sorted(f"{pm.fmt}/{pm.rep}/{pm.damage[0] + ':' + str(pm.damage[1]) if pm.damage else 'ok'}/{min(pm.n_writes, 3)}/{bool(pm.subs)}/{bool(pm.foreign)}" for pm in self.paths.values()))
+
     def digest(self):
         import hashlib
 
@@ -176,6 +181,12 @@ def op_mkfield(st, o):
     if res.raised:
         raise Violation("unexpected_exception", f"in-place history before saving raised {res.e!r}", preds=["pre"], kind="H")
     mm = res.v
+    if o.get("pre"):
+        # what is written is the object's own (rounded) geometry; that the in-place history
+        # realises its exact map is C13's business, not the store's
+        from .ops_field import adopt_mesh
+
+        mm = adopt_mesh(mesh_obj)
     nvdim = o["nvdim"]
     arr = value_array(o["value"], (*mm.n, nvdim))
     dt = o.get("dtype")
@@ -199,9 +210,42 @@ def op_mkfield(st, o):
     vdims = o.get("vdims")
     if vdims is None and nvdim > 1:
         vdims = ["x", "y", "z"][:nvdim] if nvdim <= 3 else [f"v{i}" for i in range(nvdim)]
+    if not hasattr(st, "mk"):
+        st.mk = {}
+    st.mk[o["out"]] = {k: v for k, v in o.items() if k != "op"}
     st.f[o["out"]] = (obj, FieldS(mm, nvdim, np.array(obj.array, copy=True), valid.astype(bool), vdims, o.get("unit"), bool(spec.get("intcorners"))))
     st.next_slot = max(st.next_slot, o["out"] + 1)
     return "ok"
+
+
+@op("mkvariant")
+def op_mkvariant(st, o):
+    """A second field on the SAME geometry that differs in one attribute (tolerance
+    factor, integer vs float corners, bc, subregions, unit): files of such twins must
+    not be confused with each other by anything that remembers earlier reads."""
+    src = st.mk.get(o["src"]) if hasattr(st, "mk") else None
+    if src is None:
+        return "skipped"
+    spec = dict(src, out=o["out"], mesh=dict(src["mesh"]))
+    m = spec["mesh"]
+    ch = o["change"]
+    if ch == "tol":
+        m["tol"] = o["tol"]
+    elif ch == "corners":
+        if not all(float(x).is_integer() for x in m["p1"] + m["p2"]) or spec.get("pre"):
+            return "skipped"
+        m["intcorners"] = not m.get("intcorners")
+        m["intsubs"] = bool(m["intcorners"]) and all(float(x).is_integer() for _, a, b in m.get("subs", []) for x in a + b)
+    elif ch == "bc":
+        m["bc"] = "" if m.get("bc") else "neumann"
+    elif ch == "subs":
+        m["subs"] = m.get("subs", [])[:-1] if m.get("subs") else []
+        if not src["mesh"].get("subs"):
+            return "skipped"
+    elif ch == "unit":
+        spec["unit"] = None if spec.get("unit") else "T"
+    st.stats.probe("twin_field")
+    return op_mkfield(st, spec)
 
 
 @op("dropfield")
@@ -273,7 +317,9 @@ def lib_write(st, obj, rel, fmt, rep, opts):
     if fmt == "ovf":
         kw = dict(representation=rep, extend_scalar=bool(opts.get("extend_scalar")), save_subregions=opts.get("save_subregions", True))
     elif fmt == "vtk":
-        kw = dict(representation=rep, save_subregions=opts.get("save_subregions", True))
+        kw = dict(save_subregions=opts.get("save_subregions", True))
+        if rep != "default":  # to_file's default representation ("bin8") is the binary form
+            kw["representation"] = rep
     return sut(obj.to_file, st.fs.path(rel), **kw)
 
 
@@ -503,6 +549,9 @@ def check_read_hdf5(st, g, pm):
         bad.append(f"dims {tuple(g.mesh.region.dims)} written {mm.region.dims}")
     if tuple(g.mesh.region.units) != mm.region.units:
         bad.append(f"units {tuple(g.mesh.region.units)} written {mm.region.units}")
+    kind = np.asarray(g.mesh.region.pmin).dtype.kind
+    if (kind in "iu") != bool(fsh.intcorners):
+        bad.append(f"corner dtype {np.asarray(g.mesh.region.pmin).dtype} written as {'integer' if fsh.intcorners else 'float'} corners")
     if g.mesh.region.tolerance_factor != mm.region.tol:
         bad.append(f"tolerance_factor {g.mesh.region.tolerance_factor!r} written {mm.region.tol!r}")
     if g.mesh.bc != mm.bc:
@@ -815,6 +864,13 @@ def check_foreign(st, g, pm):
             bad.append(f"vdims {g.vdims} foreign labels {fsh.vdims}")
         if fsh.unit is not None and g.unit != fsh.unit:
             bad.append(f"unit {g.unit!r} foreign {fsh.unit!r}")
+    if kind == "ovf" and pm.foreign["version"] == 1:
+        # an OVF 1.0 file carries `valueunit` and no labels: whatever the reader makes of
+        # that, it cannot be a unit or labels the writer never wrote
+        if g.unit not in (None, fsh.unit):
+            bad.append(f"unit {g.unit!r} is not in the file (the foreign writer wrote valueunit {fsh.unit!r})")
+        if g.vdims is not None and list(g.vdims) != ["x", "y", "z"]:
+            bad.append(f"vdims {list(g.vdims)} are not in the file (OVF 1.0 has no labels)")
     return bad
 
 
